@@ -81,7 +81,7 @@ func runFault(c J) J {
 			case "ParseAndFRender":
 				serr = rs.engine.ParseAndFRender(w, []byte(rs.src), rs.bindings)
 			default:
-				tpl, perr := rs.engine.ParseTemplateLocation([]byte(rs.src), rs.path, rs.line0)
+				tpl, perr := parseScribbled(rs.engine, rs.src, rs.path, rs.line0)
 				if perr != nil {
 					return errResult("parse", perr, rs.root)
 				}
